@@ -34,7 +34,11 @@ func VerifC27RoundTrip() {
 	var lens [3]int
 	total := 0
 	for b := 0; b < nb; b++ {
-		lens[b] = int(rt.Fix(rt.Int("len"+string(rune('0'+b)), 0, 2)))
+		maxLen := int64(2)
+		if rt.Tier() == 1 {
+			maxLen = 4
+		}
+		lens[b] = int(rt.Fix(rt.Int("len"+string(rune('0'+b)), 0, maxLen)))
 		total += lens[b]
 	}
 	vtype := rt.Fix(rt.Int("value_type", 0, 2))
